@@ -61,6 +61,7 @@ class LogRun(object):
         self.exc = 0
         self.refused = False
         self.msgdir = os.path.join(root, PEER.lower(), 'msg')
+        self.huge = False
 
     # ------------------------------------------------------------ actions
     def restart(self):
@@ -81,7 +82,9 @@ class LogRun(object):
         ts = 1.7e9 + W.now
         CONF.set_override('write_msg_max_size', 1 if rot else 10 ** 12, group='message')
         if kind == 'update':
-            h.update_received(p, ts, {'attr': {1: 0, 2: [[2, [65002]]], 3: '10.0.0.2'}, 'nlri': ['10.1.1.0/24'], 'withdraw': [], 'afi_safi': 'ipv4'})
+            # every fourth history logs UPDATEs as large as a 4096-octet message can be (about 1000 prefixes: a record of ~16 KB)
+            nlri = ['10.1.1.0/24'] if not self.huge else ['%d.%d.%d.0/24' % (11 + i // 65536, (i // 256) % 256, i % 256) for i in range(1000)]
+            h.update_received(p, ts, {'attr': {1: 0, 2: [[2, [65002]]], 3: '10.0.0.2'}, 'nlri': nlri, 'withdraw': [], 'afi_safi': 'ipv4'})
         elif kind == 'odd':
             # what _update_received hands over for an MP_REACH of an address family yabgp does not decode: raw octets
             h.update_received(p, ts, {'attr': {14: {'afi_safi': [25, 70], 'nexthop': b'\x0a\x00\x00\x02', 'nlri': b'\x00\x01\x02'}}, 'nlri': [], 'withdraw': [], 'afi_safi': None})
@@ -205,6 +208,7 @@ def replay_walk(g, walk, tid, frac):
     try:
         W.now = 0.0
         r = LogRun(root)
+        r.huge = (tid % 4 == 1)
         lines = [{'tid': tid, 'i': 0, 'k': 'begin', 'kind': '', 'cut': ''}]
         drift = None
         i = 0
